@@ -12,9 +12,13 @@ ones of its own property.  Three levels:
       exception when classify fails; `loaded_ok` (the structure of a loaded dataset that the theorems assume)
       is evaluated on the same stretches.
 """
+import bisect
+import builtins
 import contextlib
 import copy
+import hashlib
 import logging
+import os
 import sqlite3
 from fractions import Fraction
 
@@ -22,6 +26,7 @@ import numpy as np
 
 from harness import common as C
 from harness import dataset as D
+from harness import envcheck as E
 from harness import gen_classify as G
 
 PRE = 'From Spowtd Require Import Model.ClassifyData Model.DepthView.\nFrom Coq Require Import Qabs.\nClose Scope Q_scope.\n'
@@ -72,6 +77,87 @@ def classify_cli(db, rec, out):
         return D.cli(['classify', db, '-s', rec['thr_s'], '-j', rec['thr_j']] + flags)
 
 
+def exc_from_child(res):
+    """An exception object for a command that failed in a child process: the class named on the last line of the
+    child's traceback (builtins / sqlite3), RuntimeError otherwise."""
+    line = E.last_error_line(res)
+    name, _, msg = line.partition(':')
+    cls = getattr(builtins, name.strip().split('.')[-1], None) or getattr(sqlite3, name.strip().split('.')[-1], None)
+    if not (isinstance(cls, type) and issubclass(cls, Exception)):
+        return RuntimeError(line)
+    try:
+        return cls(msg.strip())
+    except Exception:  # pylint: disable=broad-except
+        return RuntimeError(line)
+
+
+def run_commands(rec, ds, d, out):
+    """`spowtd load` + `spowtd classify` on the dataset of a record.  In-process by default; a record carrying
+    rec['env'] = name of a variant of harness.envcheck (python -O, TZ=..., -vvv, other directory, random hash seed)
+    is processed by ONE child process under that variant instead.  Returns (db, stage, exc): stage 'load' /
+    'classify' = the command that failed with exc, 'done' = both finished."""
+    name = rec.get('env')
+    if not name:
+        db, rc, exc = D.load(ds, d)
+        if exc is not None:
+            return db, 'load', exc
+        rc, exc, _ = classify_cli(db, rec, out)
+        return db, ('classify' if exc is not None else 'done'), exc
+    variant = E.variant_by_name(name)
+    paths = ds.write(d)
+    db = os.path.join(d, 'data.sqlite3')
+    if os.path.exists(db):
+        os.remove(db)
+    flags = [] if variant.get('verbose') else VERBOSITY[rec.get('verb', 0) % len(VERBOSITY)]
+    res, failed = E.run_cli_sequence_variant(
+        [['load', db, '-p', paths['precipitation'], '-e', paths['evapotranspiration'], '-z', paths['water_level'],
+          '--timezone', ds.tz],
+         ['classify', db, '-s', repr(float(rec['thr_s'])), '-j', repr(float(rec['thr_j']))] + flags], variant)
+    out.count('env:' + name)
+    if failed is None:
+        return db, 'done', None
+    return db, ('load' if failed == 0 else 'classify'), exc_from_child(res)
+
+
+ENV_TABLES = {'C01': ('thresholds', 'storm', 'zeta_interval', 'zeta_interval_storm'), 'C02': ('zeta_interval_storm',),
+              'C03': ('storm', 'zeta_interval', 'zeta_interval_storm', 'storm_total_rain_depth'),
+              'C04': ('grid_time_flags', 'zeta_interval')}
+
+
+def env_records(recs, rng, seed, n_opt=2, n_other=2, fits=None):
+    """Copies of a few records tagged with an environment variant: n_opt under `python -O`, n_other under variants
+    drawn (by `rng`, a stream of its own) from the rest of harness.envcheck.workflow_env_variants()."""
+    pool = [r for r in recs if (fits is None or fits(r))] or list(recs)
+    others = [v['name'] for v in E.workflow_env_variants() if v['name'] != 'opt']
+    names = ['opt'] * n_opt + [others[(seed + k * 3 + rng.randrange(2)) % len(others)] for k in range(n_other)]
+    return [dict(rng.choice(pool), env=name) for name in names]
+
+
+def env_compare(rec, ds, db, stage, exc, out, prop, case):
+    """Environment stage: the same files through the same two commands in-process under the default settings; the
+    outcome (which command failed, with which kind of exception) and the rows of the property's tables must be
+    those of the child process run under rec['env']."""
+    d0 = D.scratch(prop, 'cl_db_ref')
+    db0, stage0, exc0 = run_commands({k: v for k, v in rec.items() if k != 'env'}, ds, d0, out)
+    what = 'environment %s vs default in-process run' % rec['env']
+    if stage0 != stage or type(exc0).__name__ != type(exc).__name__:
+        out.violation('oracle', '%s: outcome differs: %s / %s under the variant, %s / %s by default'
+                      % (what, stage, None if exc is None else '%s: %s' % (type(exc).__name__, exc), stage0,
+                         None if exc0 is None else '%s: %s' % (type(exc0).__name__, exc0)), case=case)
+        return
+    if stage == 'load':
+        return
+    a, b = D.dump(db0, views=True), D.dump(db, views=True)
+    diffs = E.diff_dumps({t: a.get(t, []) for t in ENV_TABLES[prop]}, {t: b.get(t, []) for t in ENV_TABLES[prop]})
+    if diffs:
+        out.violation('oracle', '%s: tables differ (default vs variant): %s' % (what, '; '.join(diffs)[:600]), case=case)
+    other = E.diff_dumps({t: r for t, r in a.items() if t not in ENV_TABLES[prop]},
+                         {t: r for t, r in b.items() if t not in ENV_TABLES[prop]})
+    if other:
+        out.count('env:%s:tables-of-other-properties-differ(%s)' % (rec['env'], ','.join(x.split(':')[0].split()[0] for x in other)[:80]))
+    out.count('env:%s:compared-with-default' % rec['env'])
+
+
 def label_hole(st, out):
     """Count datasets whose data-interval numbers (as stored by load) are not 1..n without a hole."""
     labels = [s['label'] for s in st]
@@ -110,6 +196,14 @@ def share_step(sp, rp):
     return max(sp[0], rp[0]) < min(sp[1], rp[1] - 1)
 
 
+def window(flags, s, e, w=10):
+    """The flags as 0/1, whole when short, else the samples around [s, e)."""
+    if len(flags) <= 150:
+        return [int(b) for b in flags]
+    lo, hi = max(0, s - w), min(len(flags), e + w)
+    return 'samples %d..%d of %d: %s' % (lo, hi - 1, len(flags), [int(b) for b in flags[lo:hi]])
+
+
 def oracle_pairs(heavy, jumpf, pairs, tag):
     """Direct evaluation of C01/C02/C03 on recorded pairs [(storm, rise)] of one stretch.
     Returns list of (property, message, signature)."""
@@ -117,27 +211,31 @@ def oracle_pairs(heavy, jumpf, pairs, tag):
     storms = [p[0] for p in pairs]
     rises = [p[1] for p in pairs]
     if len(set(storms)) != len(storms):
-        probs.append(('C01', '%s: a storm appears in two pairs: %s' % (tag, pairs), None))
+        probs.append(('C01', '%s: a storm appears in two pairs: %s' % (tag, str(pairs)[:1500]), None))
     if len(set(rises)) != len(rises):
-        probs.append(('C01', '%s: a rise appears in two pairs: %s' % (tag, pairs), None))
+        probs.append(('C01', '%s: a rise appears in two pairs: %s' % (tag, str(pairs)[:1500]), None))
     for sp, rp in pairs:
         if not share_step(sp, rp):
             probs.append(('C01', '%s: pair storm %s / rise %s shares no time step' % (tag, sp, rp), None))
         if not is_maximal_run(heavy, sp[0], sp[1]):
             probs.append(('C03', '%s: recorded storm %s is not a maximal run of intensity > threshold '
-                          '(flags %s)' % (tag, sp, [int(b) for b in heavy]), None))
+                          '(flags %s)' % (tag, sp, window(heavy, sp[0], sp[1])), None))
         if not is_maximal_run(jumpf, rp[0], rp[1] - 1):
             probs.append(('C03', '%s: recorded rise %s is not a maximal run of increments > threshold '
-                          'x step (flags %s)' % (tag, rp, [int(b) for b in jumpf]), None))
+                          'x step (flags %s)' % (tag, rp, window(jumpf, rp[0], rp[1] - 1)), None))
     # stability
     all_storms, all_rises = runs_of(heavy), [(a, b + 1) for a, b in runs_of(jumpf)]
     m_storm = {sp: rp for sp, rp in pairs}
     m_rise = {rp: sp for sp, rp in pairs}
 
+    # (rises are disjoint and ascending: those sharing a step with a storm [s, e) are the ones with last increment
+    # index > s and first increment index < e; found by bisection so that records of 10^4 samples stay cheap)
+    r_first, r_last = [rp[0] for rp in all_rises], [rp[1] - 1 for rp in all_rises]
+
     def blocking(durkey):
         out = []
         for sp in all_storms:
-            for rp in all_rises:
+            for rp in all_rises[bisect.bisect_right(r_last, sp[0]):bisect.bisect_left(r_first, sp[1])]:
                 if not share_step(sp, rp) or m_storm.get(sp) == rp:
                     continue
                 storm_gain = sp not in m_storm or durkey(sp, rp) < durkey(sp, m_storm[sp])
@@ -151,11 +249,11 @@ def oracle_pairs(heavy, jumpf, pairs, tag):
     b_step = blocking(step_key)
     if b_code:
         probs.append(('C02', '%s: blocking pair %s (storm, rise) under the code\'s own keys; matching %s'
-                      % (tag, b_code[0], pairs), None))
+                      % (tag, b_code[0], str(pairs)[:1500]), None))
     elif b_step:
         probs.append(('C02', '%s: blocking pair %s under recorded durations (steps): the storm would get a '
                       'strictly closer duration and the rise a strictly closer start; matching %s'
-                      % (tag, b_step[0], pairs), KNOWN_DUR))
+                      % (tag, b_step[0], str(pairs)[:1500]), KNOWN_DUR))
     return probs
 
 
@@ -259,6 +357,78 @@ def check_gs(cases, out, keep, prop, label):
                       'schedules on %s' % meta_poss[i], case=meta_poss[i])
 
 
+# ------------------------------------------------------------------ GS level, large (oracle only)
+
+def gen_chain_graph(rng, n, order='asc', flip=0.0):
+    """Chain graph of n+1 storms (0..n) and n rises (0..n-1, numbered from 100000): storm i is a candidate of rises
+    i-1 and i and prefers rise i; rise i prefers storm i+1; the last storm has rise n-1 only.  Whatever order the
+    storms propose in, the stable matching is (storm i+1, rise i), reached by displacing storms down the chain (n
+    links when the storms come in ascending order).  `flip`: share of links whose rise prefers its own storm (the
+    chain falls into independent chains).  `order`: insertion order of the storms in the candidates dict."""
+    J = 100000
+    cands, prefs = {}, {}
+    for i in range(n + 1):
+        lst = ([J + i - 1] if i >= 1 else []) + ([J + i] if i < n else [])         # worst first, best last
+        cands[i] = lst
+    for i in range(n):
+        a, b = rng.sample(range(1, 60), 2)
+        lo, hi = -max(a, b), -min(a, b)
+        prefs[J + i] = {i: hi, i + 1: lo} if rng.random() < flip else {i: lo, i + 1: hi}
+    keys = list(cands)
+    if order == 'desc':
+        keys.reverse()
+    elif order == 'shuffled':
+        rng.shuffle(keys)
+    return {k: cands[k] for k in keys}, prefs
+
+
+def check_gs_large(cases, out, keep, prop):
+    """find_stable_matching on large graphs, judged by the oracle alone (candidate edges, one-to-one, no blocking
+    pair; linear in the number of edges).  Not sent to Coq: reading thousands of literals would dominate."""
+    import spowtd.classify as cl
+    for spec in cases:
+        out.evaluations += 1
+        out.count('GS-large:%s(n=%d..)' % (spec['order'], spec['n'] // 1000 * 1000))
+        case = dict(level='GS-large', spec=spec)
+        cands, prefs = gen_chain_graph(C.rng_for(0, 'chain-graph', spec['rseed']), spec['n'], spec['order'], spec['flip'])
+        try:
+            m = cl.find_stable_matching(copy.deepcopy(cands), copy.deepcopy(prefs))
+            m = {int(k): int(v) for k, v in m.items()}
+        except Exception as e:  # pylint: disable=broad-except
+            if 'C01' in keep:
+                out.violation('oracle', 'find_stable_matching raised %s: %s on a chain of %d storms and %d rises (storm i '
+                              'candidate of rises i-1, i; insertion order %s)'
+                              % (type(e).__name__, str(e)[:200], spec['n'] + 1, spec['n'], spec['order']), case=case)
+            continue
+        inv, ok = {}, True
+        for j, st in m.items():
+            if j not in cands.get(st, []):
+                ok = False
+                if 'C02' in keep:
+                    out.violation('oracle', 'large chain graph: matched pair (rise %s, storm %s) is not a candidate edge' % (j, st), case=case)
+            if st in inv and 'C01' in keep:
+                out.violation('oracle', 'large chain graph: storm %s matched to two rises (%s, %s)' % (st, inv[st], j), case=case)
+            inv[st] = j
+        if ok and 'C02' in keep:
+            for st, lst in cands.items():
+                for j in lst:
+                    if m.get(j) == st:
+                        continue
+                    s_gain = st not in inv or lst.index(j) > lst.index(inv[st])
+                    j_gain = j not in m or prefs[j][st] > prefs[j][m[j]]
+                    if s_gain and j_gain:
+                        out.violation('oracle', 'large chain graph (%d links, order %s): blocking pair (storm %s, rise %s)'
+                                      % (spec['n'], spec['order'], st, j), case=case)
+                        break
+        if len(m) >= 2:
+            out.nontriv(('gs-large', spec['n'], spec['order'], spec['rseed']))
+
+
+def chain_graph_specs(rng, sizes):
+    return [dict(n=n, order=order, flip=flip, rseed=rng.getrandbits(40))
+            for n, order, flip in zip(sizes, ['asc', 'shuffled', 'desc', 'asc', 'shuffled'] * 4, [0.0, 0.0, 0.0, 0.002, 0.01] * 4)]
+
+
 # ------------------------------------------------------------------ MS level
 
 def flags_of(rain, head, thr_s, delta):
@@ -349,28 +519,42 @@ def nontrivial_matching(heavy, jumpf, pairs):
     return bool(pairs) and (max(deg_s + [0]) >= 2 or max(deg_r + [0]) >= 2)
 
 
-def check_ms(recs, out, keep, prop, label):
+def flags_key(tag, heavy, jumpf):
+    """Key of a case for the count of distinct non-trivial cases: the flag vectors, hashed when long."""
+    if len(heavy) <= 200:
+        return (tag, tuple(heavy), tuple(jumpf))
+    return (tag + '-large', len(heavy), hashlib.sha256(bytes(heavy) + b'/' + bytes(jumpf)).hexdigest()[:16])
+
+
+def check_ms(recs, out, keep, prop, label, coq=True):
+    """coq=False: large records (compact specs, G.expand), judged by the oracle alone."""
     batch = MSBatch()
     for rec in recs:
         out.evaluations += 1
         out.count('MS:' + rec['cls'])
-        rain, head = rec['rain'], rec['zeta']
+        full = G.expand(rec)
+        rain, head = full['rain'], full['zeta']
         thr_s = rec['thr_s']
         delta = rec['thr_j'] * (rec['step'] / 3600.0)
-        case = dict(level='MS', rain=rain, head=head, thr_s=thr_s, delta=delta)
+        big = 'big' in rec
+        case = dict(level='MS', rec=rec) if big else dict(level='MS', rain=rain, head=head, thr_s=thr_s, delta=delta)
+        show = ('%d samples of class %s' % (len(rain), rec['cls'])) if big else 'rain=%s head=%s' % (rain, head)
         res = impl_match_storms(rain, head, thr_s, delta)
         heavy, jumpf = flags_of(rain, head, thr_s, delta)
+        if big:
+            out.count('MS-large:%s:storms' % rec['cls'], len(runs_of(heavy)))
+            out.count('MS-large:%s:samples' % rec['cls'], len(rain))
         if res[0] == 'err':
             if 'C01' in keep:
-                out.violation('oracle', 'match_storms raised %s on rain=%s head=%s thresholds (%s, %s)'
-                              % (res[2], rain, head, thr_s, delta), case=case)
+                out.violation('oracle', 'match_storms raised %s on %s thresholds (%s, %s)'
+                              % (res[2][:300], show, thr_s, delta), case=case)
         else:
             for p, msg, sig in oracle_pairs(heavy, jumpf, res[1], 'match_storms'):
                 if p in keep:
-                    out.violation('oracle', msg + ' | rain=%s head=%s thr=(%s,%s)' % (rain, head, thr_s, delta),
+                    out.violation('oracle', msg[:2500] + ' | %s thr=(%s,%s)' % (show, thr_s, delta),
                                   case=case, signature=sig)
             if nontrivial_matching(heavy, jumpf, res[1]):
-                out.nontriv(('ms', tuple(heavy), tuple(jumpf)))
+                out.nontriv(flags_key('ms', heavy, jumpf))
             if heavy and heavy[0]:
                 out.count('starts-in-heavy-rain')
             if heavy and heavy[-1]:
@@ -382,7 +566,8 @@ def check_ms(recs, out, keep, prop, label):
             if len(res[1]) < len([s for s in runs_of(heavy)
                                   if any(share_step(s, (a, b + 1)) for a, b in runs_of(jumpf))]):
                 out.count('a-storm-with-candidates-left-unmatched')
-        batch.add(rain, head, thr_s, delta, res, case, out)
+        if coq and not big:
+            batch.add(rain, head, thr_s, delta, res, case, out)
     batch.run(prop, label, out)
 
 
@@ -648,7 +833,10 @@ def count_foot(recs, out):
         out.count('foot:boundary-increments-realised-exactly', rec.get('edge_exact', 0))
 
 
-def check_cl(recs, out, keep, prop, label):
+def check_cl(recs, out, keep, prop, label, coq=True):
+    """coq=False: large records (compact specs), judged by the oracle alone - nothing is sent to Coq.
+    Records carrying rec['env'] are processed in a child process under that environment variant (run_commands),
+    judged like every other record, and compared table by table with the default in-process run (env_compare)."""
     batch = MSBatch()
     cmd = CommandBatch()
     depth_cases, depth_meta = [], []
@@ -656,26 +844,36 @@ def check_cl(recs, out, keep, prop, label):
         rec = with_verbosity(rec, k)
         out.evaluations += 1
         out.count('CL:' + rec['cls'])
+        if rec.get('far'):
+            out.count('CL-far-origin:' + G.far_kind(rec))
         if rec.get('fine', 1) > 1:
             out.count('CL-fine-water-level(x%d)%s' % (rec['fine'], '+island' if rec.get('island') else ''))
             if rec.get('run_in'):
                 out.count('CL-fine:heavy-rain-and-rise-run-into-and-out-of-an-outage', rec['run_in'])
         d = D.scratch(prop, 'cl_db')
         ds = G.to_dataset(rec)
-        case = dict(level='CL', rec=rec)
-        db, rc, exc = D.load(ds, d)
-        if exc is not None:
+        case = dict(level='CL', rec=rec, coq=coq)
+        db, stage, exc = run_commands(rec, ds, d, out)
+        if rec.get('env'):
+            env_compare(rec, ds, db, stage, exc, out, prop, case)
+        if stage == 'load':
             out.count('CL-load-refused')
             continue
-        rc, exc, _ = classify_cli(db, rec, out)
-        cmd.add(db, rec['thr_s'], rec['thr_j'], exc, case, out)
+        if coq:
+            cmd.add(db, rec['thr_s'], rec['thr_j'], exc, case, out)
         if exc is not None:
             if 'C01' in keep:
-                out.violation('oracle', 'classify failed with %s: %s on a dataset that loads (class %s, '
-                              'thresholds %s / %s)' % (type(exc).__name__, exc, rec['cls'], rec['thr_s'], rec['thr_j']),
+                out.violation('oracle', 'classify failed with %s: %s on a dataset that loads (class %s, %s'
+                              'thresholds %s / %s%s)' % (type(exc).__name__, str(exc)[:300], rec['cls'],
+                                                         ('%d samples, ' % len(ds.wl)) if 'big' in rec else '',
+                                                         rec['thr_s'], rec['thr_j'],
+                                                         (', origin %s' % D.fmt_utc(rec['t0'])) if rec.get('far') else '')
+                              + ('; environment %s' % rec['env'] if rec.get('env') else ''),
                               case=case)
             continue
         st, step = D.stretches(db)
+        if 'big' in rec:
+            out.count('CL-large:%s:samples' % rec['cls'], sum(len(x['epoch']) for x in st))
         label_hole(st, out)
         storms, zi, zis, depth, rainrows, thr = read_matching(db)
         delta = rec['thr_j'] * (step / 3600.0)
@@ -710,8 +908,15 @@ def check_cl(recs, out, keep, prop, label):
                 if p in keep:
                     out.violation('oracle', msg, case=case, signature=sig)
             if nontrivial_matching(heavy, jumpf, pairs):
-                out.nontriv(('cl', tuple(heavy), tuple(jumpf)))
-            batch.add(rain, zeta, rec['thr_s'], delta, ('ok', pairs), case, out)
+                out.nontriv(flags_key('cl', heavy, jumpf))
+            if 'big' in rec:
+                out.count('CL-large:%s:storms' % rec['cls'], len(runs_of(heavy)))
+                out.count('CL-large:%s:pairs' % rec['cls'], len(pairs))
+                cuts = G.block_edges(len(ep), margin=1)
+                out.count('CL-large:storm-or-rise-across-a-block-edge',
+                          sum(1 for p in cuts if (heavy[p - 1] and heavy[p]) or (p < len(jumpf) and jumpf[p - 1] and jumpf[p])))
+            if coq:
+                batch.add(rain, zeta, rec['thr_s'], delta, ('ok', pairs), case, out)
             # depth view (C03)
             if 'C03' in keep:
                 for (sp, _) in pairs:
@@ -721,7 +926,7 @@ def check_cl(recs, out, keep, prop, label):
                     if got is None or abs(Fraction(got) - want) > Fraction(1, 10**9) * (1 + abs(want)):
                         out.violation('oracle', 'rain depth of storm at %s is %s, but intensity x step summed over '
                                       'its steps %s..%s is %s' % (sstart, got, sp[0], sp[1] - 1, float(want)), case=case)
-                    else:
+                    elif coq:
                         rows = C.clist(['{| r_from := %s; r_thru := %s; r_mm_h := %s |}' % (C.cZ(a), C.cZ(b), C.cQ(v))
                                         for a, b, v in rainrows])
                         depth_cases.append('(%s, %s, %s, %s)' % (C.cZ(sstart), C.cZ(storms[sstart]), rows, C.cQ(got)))
@@ -754,10 +959,14 @@ def replay_case(case, out, keep, prop):
         cands = {int(k): v for k, v in case['cands'].items()}
         prefs = {int(k): {int(a): b for a, b in v.items()} for k, v in case['prefs'].items()}
         check_gs([(cands, prefs)], out, keep, prop, 'replay')
+    elif case['level'] == 'MS' and 'rec' in case:
+        check_ms([case['rec']], out, keep, prop, 'replay', coq=False)
     elif case['level'] == 'MS':
         rec = dict(cls='replay', rain=case['rain'], zeta=case['head'], thr_s=case['thr_s'], thr_j=case['delta'], step=3600)
         check_ms([rec], out, keep, prop, 'replay')
     elif case['level'] == 'probe':
         command_probes(out, prop, 'replay', [case['name']])
+    elif case['level'] == 'GS-large':
+        check_gs_large([case['spec']], out, keep, prop)
     else:
-        check_cl([case['rec']], out, keep, prop, 'replay')
+        check_cl([case['rec']], out, keep, prop, 'replay', coq=case.get('coq', True))
